@@ -41,6 +41,43 @@ def enclosing_fn(lines, idx):
     return None, -1
 
 
+def run_canary(unit, repo, outdir, verus_args, res):
+    path, linemap, cres = vxgen.generate(repo, unit, outdir, canary=True)
+    gen_lines = open(path).read().split("\n")
+    rc, out, err, dt = sh([VERUS, path] + verus_args, cwd=outdir, timeout=unit.get("timeout", 900))
+    failed = set()
+    base = os.path.basename(path)
+    for l in err.split("\n"):
+        l = l.strip()
+        if not (l.startswith("{") and '"$message_type"' in l):
+            continue
+        try:
+            d = json.loads(l)
+        except Exception:
+            continue
+        if d.get("level") != "error" or "assertion failed" not in d.get("message", ""):
+            continue
+        for s in d.get("spans", []):
+            if os.path.basename(s.get("file_name", "")) == base and s.get("is_primary"):
+                li = s["line_start"] - 1
+                if "vx canary" in gen_lines[li]:
+                    fn, _ = enclosing_fn(gen_lines, li)
+                    lm = linemap[li] if li < len(linemap) else None
+                    failed.add(((lm[2] if lm else None), fn))
+    expected = set()
+    for i, l in enumerate(gen_lines):
+        if "vx canary" in l:
+            fn, _ = enclosing_fn(gen_lines, i)
+            lm = linemap[i] if i < len(linemap) else None
+            expected.add(((lm[2] if lm else None), fn))
+    missing = sorted(str(x) for x in expected - failed)
+    if not expected:
+        raise Undecided("canary pass of unit %s found no function body" % unit["_name"])
+    if missing:
+        raise Undecided("vacuity guard: assert(false) at the start of %s still verifies (contradictory precondition or unreachable body)" % ", ".join(missing))
+    return {"functions_with_reachability_canary": len(expected), "all_failed_as_required": True, "wall_s": round(dt, 2)}
+
+
 def run_unit(unit_name, repo, outdir, prop, tier, rlimit=None, extra_args=None):
     """returns (obligations, info) ; raises Undecided"""
     t0 = time.time()
@@ -173,6 +210,9 @@ def run_unit(unit_name, repo, outdir, prop, tier, rlimit=None, extra_args=None):
     # if Verus verified more functions than we could name (e.g. trait default bodies), keep count
     for k in range(n_ver - named):
         obls.append(Obligation("%s/V/%s::<unnamed-%d>" % (prop, unit_name, k), "verus", DISCHARGED))
+    # ---- vacuity guard: with `assert(false)` at the start of every extracted body, every such
+    # function must FAIL; one that still verifies has a contradictory precondition
+    canary_info = run_canary(unit, repo, outdir, args[2:], res)
     rewrites = []
     for it in res["items"]:
         for r in it["rewrites"]:
@@ -186,5 +226,6 @@ def run_unit(unit_name, repo, outdir, prop, tier, rlimit=None, extra_args=None):
         "wall_s": round(time.time() - t0, 2), "smt_ms": smt_ms, "verus_total_ms": total_ms,
         "cmd": " ".join(args), "rewrites": rewrites, "assumption_scan": scan,
         "items": [{"id": it["id"], "file": it["file"], "select": it["select"], "src_lines": it["src_lines"]} for it in res["items"]],
+        "vacuity_canary": canary_info,
     }
     return obls, info
